@@ -1,9 +1,12 @@
 #!/bin/bash
-# Builds every monitor binary from files on disk only (offline). Also warms the Go build cache.
+# Builds the monitor binaries of every property claimed in MANIFEST.json from files on disk only
+# (offline). Also warms the Go build cache. Groups of unclaimed properties are skipped.
 cd /verif || exit 1
 . /verif/scripts/env.sh
+claimed=$(python3 -c "import json;print(' '.join(c['property_id'] for c in json.load(open('/verif/MANIFEST.json'))['checks']))")
 rc=0
 while read -r pid group mode rest; do
+  case " $claimed " in *" $pid "*) ;; *) continue;; esac
   race=""; [ "$mode" = race ] && race=race
   echo "setup: building $group $race"
   /verif/scripts/build.sh "$group" $race || rc=1
